@@ -1438,7 +1438,11 @@ func (h *verifC14H) seqOp() {
 			h.cancel()
 			h.quiescent("after cancel")
 		default:
-			h.restart()
+			if r.Chance(1, 3) {
+				h.restart()
+			} else {
+				h.connect(nil)
+			}
 		}
 	}
 }
